@@ -75,7 +75,7 @@ fn stmt(s: &Stmt) -> J {
             json!(["item", v])
         }
         Stmt::Expr(e, semi) => json!(["expr", expr(e), semi.is_some()]),
-        Stmt::Macro(m) => json!(["expr", ["macro", path_s(&m.mac.path), compact(&m.mac.tokens.to_string())], true]),
+        Stmt::Macro(m) => json!(["expr", ["macro", path_s(&m.mac.path), compact(&m.mac.tokens.to_string()), m.mac.tokens.to_string()], true]),
     }
 }
 
@@ -112,7 +112,7 @@ fn expr(e: &Expr) -> J {
             other => json!(["lit", ts(other)]),
         },
         Expr::Loop(l) => json!(["loop", block(&l.body)]),
-        Expr::Macro(m) => json!(["macro", path_s(&m.mac.path), compact(&m.mac.tokens.to_string())]),
+        Expr::Macro(m) => json!(["macro", path_s(&m.mac.path), compact(&m.mac.tokens.to_string()), m.mac.tokens.to_string()]),
         Expr::Match(m) => {
             let arms: Vec<J> = m
                 .arms
